@@ -20,6 +20,10 @@ CLAIMS = {
   "For each of the 7 term kinds, all parameter values and all positions off the stated singular sets: the energy model equals the theory document's closed form (in independently written spec geometry), every one of the 6/9/12 translated gradient slots equals the exact derivative of that energy (per-slot identity tangent = gradient program, then HasDerivAt), and no other slot is written, for any index assignment inside a larger array. Gradient programs are re-translated from the Rust add_gradient bodies on every run and the proofs re-checked; the energy model and the translation are validated bit for bit against the Rust functions.",
   TB + "Hand energy model tied bitwise to the Rust energy functions. Real-number reading of f64 code. Torsion proved off the atan2 branch cut; repulsion exponent a natural number.",
   "Lean 4 proof (Mathlib: HasDerivAt, field_simp/ring identities per slot) over code re-translated each run + bitwise translation validation", "DESIGN.md §5 C02"),
+ "C05": ("proof",
+  "For every answer list (hence every force field behind the trait, stateful or NaN-answering ones included), every start, step length and budget, over an arbitrary scalar: the passes form a Walk — each gradient request is at the previous geometry moved against the previous gradient by the one step length in force, or at the input geometry with the step length halved; the step length is only ever kept or halved; at most maxIter gradient requests; the run ends early exactly when the last gradient met the convergence test and never continues past one; the returned coordinates are the last pass's. Proved by induction over the loop fuel on the hand model, which reproduces recorded request histories of the real optimiser bit for bit.",
+  TB + "Modelled: the optimiser loop (corresponded on recorded histories incl. synthetic force fields). Real-arithmetic reading of the convergence measure for n>0.",
+  "Lean 4 proof (induction over loop fuel, all answer histories, abstract scalar) + bit-exact request-history correspondence", "DESIGN.md §5 C05"),
  "C09": ("proof",
   "For every atom count, every distance predicate, every candidate order and every cap function: perceived bonds join distinct atoms within bonding distance, no pair twice, degree ≤ cap, and a pair within distance left unbonded has a saturated end (maximality); orders assignment keeps the pairs. Proved by loop invariants on the hand model of add_bonds/add_bond; the model (with candidate lists computed at f64 as the source does) is tied to the code by correspondence on crowded, tied, coincident and threshold geometries over all elements.",
   TB + "Modelled: perception loops (corresponded). f64 distance predicate evaluated by the driver.",
